@@ -5,13 +5,14 @@ import re
 from hypothesis import strategies as st
 
 from gens import dt as G
-from lib.engine import R, V, enum_part, hyp_part
+from lib.engine import R, V, enum_part, hyp_part, concurrent_part
 
 ID = 'C07'
 RULE = ('exhaustive 24x60 grid of HH:MM (two zero-padding styles alternating), every 12-hour spelling (h am|pm, ham, h:mm am|pm, h:mm:ss pm, h a.m.) '
         'for h in 1..12 with boundary minutes, bare hours ("at h", "h o\'clock"), Hypothesis HH:MM:SS over 24x60x60, and compositions '
         '"<date> at <time>" / "<date> <time>" with absolute dates (3 layouts), today/tomorrow/yesterday and next/this/last <weekday> x reference datetimes; '
-        'non-trivial = hour in {0, 12}, or minutes/seconds non-zero, or a composition; distinct = (query, reference)')
+        'non-trivial = hour in {0, 12}, or minutes/seconds non-zero, or a composition; distinct = (query, reference); concurrent part: the same generated cases evaluated 2-4 at a time on simultaneous threads (switch interval 10 us), '
+        'cases that are clean alone must stay clean')
 ASSUMPTIONS = ['a time TIMEX is compared by the time it denotes (T15 = T15:00 = T15:00:00); the value string must be HH:MM:SS exactly']
 
 TX_TIME = re.compile(r'^T(\d{2})(?::(\d{2})(?::(\d{2}))?)?$')
@@ -220,4 +221,5 @@ def parts(tier, seed):
         enum_part('twelve-hour-forms', twelve_hour, run_case, exhaustive=True),
         hyp_part('HHMMSS', seconds_cases, run_case, 1000 if q else 40000, min_shard=200),
         hyp_part('date-plus-time', composed_cases, run_case, 1500 if q else 20000, min_shard=150),
+        concurrent_part('concurrent', lambda: st.one_of(seconds_cases(), composed_cases()), run_case, 200 if q else 4000, min_shard=40),
     ]
